@@ -81,7 +81,9 @@ type G struct {
 	wake     chan struct{}
 	state    int // 0 running, 1 parked, 2 done
 	lockWait bool
-	tried    uint64
+	waitFd   int
+	waitHow  int
+	granted  bool
 	children int
 	yields   uint64
 	site     int
@@ -359,6 +361,7 @@ func (s *Sched) Flock(fd int, how int) error {
 			}
 			s.mu.Lock()
 			s.Events++
+			g.granted = false
 			s.mu.Unlock()
 			return err
 		}
@@ -373,7 +376,9 @@ func (s *Sched) Flock(fd int, how int) error {
 		s.LockWaits++
 		g.state = gParked
 		g.lockWait = true
-		g.tried = s.epoch
+		g.waitFd = fd
+		g.waitHow = how
+		g.granted = false
 		if s.cur == g {
 			s.cur = nil
 		}
@@ -498,12 +503,32 @@ func (s *Sched) Run() {
 			time.Sleep(d)
 			continue
 		}
+		// lock waiters: the lock is requested on their behalf (what the
+		// kernel does for a blocked flock); a waiter becomes eligible once
+		// it has been granted the lock. The order of the attempts rotates
+		// with the decision counter, a function of the trace alone.
+		var waiters []*G
+		for _, g := range s.all {
+			if g.state == gParked && g.lockWait && !g.granted {
+				waiters = append(waiters, g)
+			}
+		}
+		if len(waiters) > 0 {
+			sort.Slice(waiters, func(i, j int) bool { return waiters[i].Name < waiters[j].Name })
+			off := int(s.Decisions % uint64(len(waiters)))
+			for k := range waiters {
+				g := waiters[(k+off)%len(waiters)]
+				if err := syscall.Flock(g.waitFd, g.waitHow|syscall.LOCK_NB); err != syscall.EWOULDBLOCK {
+					g.granted = true
+				}
+			}
+		}
 		var el []*G
 		for _, g := range s.all {
 			if g.state != gParked {
 				continue
 			}
-			if g.lockWait && g.tried == s.epoch {
+			if g.lockWait && !g.granted {
 				continue
 			}
 			el = append(el, g)
